@@ -149,6 +149,7 @@ func judgeC14(hi *Hist) []*Violation {
 						at = i
 					}
 				}
+				note("c14_listeners_checked")
 				if n != 1 {
 					add("listener-count", "%s at step %d: shutdown listener %d/%d/%d (wrappers %v) was notified %d times, want exactly once", kind, hi.Sc.InjectAt, bf.Idx, side, ord, d.Wrap, n)
 				} else if at > hi.WaitOut {
@@ -172,6 +173,7 @@ func judgeC14(hi *Hist) []*Violation {
 				continue
 			}
 			n++
+			note("c14_notifier_checked")
 			if e.A == 2 {
 				add("notifier-twice", "%s at step %d: a second value arrived on the shutdown notifier: %v", kind, hi.Sc.InjectAt, e.V)
 			}
